@@ -902,7 +902,15 @@ impl World {
         let partitioning = if balanced {
             Partitioning::balanced()
         } else if let Some(k) = &key {
-            Partitioning::messages_key(k).unwrap()
+            match Partitioning::messages_key(k) {
+                Ok(p) => p,
+                Err(e) => {
+                    // keys of 1..=255 bytes are legal: a key the SDK refuses to build never reaches "the same partition"
+                    self.eval("C17:exists");
+                    let w = json!({"key_length": k.len(), "error": e.to_string(), "note": "Partitioning::messages_key refused a key of legal length"});
+                    return Err(viol("C17", "exists", "legal-key-refused", self.witness(w)));
+                }
+            }
         } else {
             Partitioning::partition_id(part)
         };
